@@ -13,8 +13,7 @@ func addStubIntrinsics(t map[string]intrinsic) {
 			return Tuple{m.bytesToSlice(m.mkStr("⟦" + tag + "⟧").B), Iface{}}
 		}
 	}
-	t["github.com/goccy/go-json.Marshal"] = opaqueBytes("json")
-	t["encoding/json.Marshal"] = opaqueBytes("json")
+	addJSONIntrinsics(t)
 	t["encoding/xml.Marshal"] = opaqueBytes("xml")
 
 	// the reverse proxy is the boundary to the upstream: calling it means "forwarded".
